@@ -99,6 +99,22 @@ fn known_signature_c01(p: &Placed, t: usize, v: &Value) -> String {
             }
         }
     }
+    // (only generated under `known_internal_unit_by_name`)
+    for td in &p.module.types {
+        if let typegen::Body::Enum(vs) = &td.body {
+            if td.attrs.repr() == typegen::Repr::Internal {
+                for var in vs {
+                    if let typegen::VBody::Newtype(f) = &var.body {
+                        if let typegen::TyExpr::User(u, _) = &f.ty {
+                            if matches!(p.module.types[*u].body, typegen::Body::Unit) && !f.inline && !f.skip && !var.untagged && var.as_type.is_none() {
+                                return "internally-tagged-variant-holding-unit-struct-by-name".into();
+                            }
+                        }
+                    }
+                }
+            }
+        }
+    }
     "value-not-in-type".into()
 }
 
